@@ -76,9 +76,32 @@ def _bodies(ctx, rng):
         yield _rand_body(rng, rng.randint(16, 40)), rng.choice(["crc", "sum"])
 
 
+def _with_history(ctx, rng):
+    """(body, check, earlier body): the same client object first refreshes against a longer report, then against this one -
+    fields that are absent now must read unknown again, not the earlier value."""
+    for length in range(16, 23):
+        for _ in range(6 if ctx.tier == "quick" else 200):
+            prev = _rand_body(rng, rng.choice([23, 24, 30]))
+            prev[19] = rng.randint(1, 100)
+            prev[21] |= 0x80
+            yield _rand_body(rng, length), rng.choice(["crc", "sum"]), prev
+    for _ in range(60 if ctx.tier == "quick" else 3000):
+        yield _rand_body(rng, rng.randint(16, 40)), rng.choice(["crc", "sum"]), _rand_body(rng, rng.randint(16, 40))
+
+
 def generate(ctx, rng):
     batch = []
     n = 0
+    for b, chk, prev in _with_history(ctx, rng):
+        batch.append({"body": bytes(b), "check": chk, "prev_body": bytes(prev)})
+        if len(batch) == BATCH:
+            yield ("hbatch", n), {"items": batch}
+            n += 1
+            batch = []
+    if batch:
+        yield ("hbatch", n), {"items": batch}
+        n += 1
+    batch = []
     for b, chk in _bodies(ctx, rng):
         batch.append({"body": bytes(b), "check": chk})
         if len(batch) == BATCH:
@@ -117,9 +140,13 @@ def run_case(ctx, case):
 
     async def go(loop):
         for it in items:
+            ac = AC(ip=dev.host, port=dev.port, device_id=dev.device_id)
+            if it.get("prev_body"):
+                dev.ac.raw_state_body = bytes(it["prev_body"])
+                dev.ac.report_check = "crc"
+                await ac.refresh()
             dev.ac.raw_state_body = bytes(it["body"])
             dev.ac.report_check = it["check"]
-            ac = AC(ip=dev.host, port=dev.port, device_id=dev.device_id)
             try:
                 await ac.refresh()
             except Exception as e:  # noqa: BLE001
@@ -130,7 +157,7 @@ def run_case(ctx, case):
     H.run_virtual(go, net)
     for it, status, val in results:
         body = bytes(it["body"])
-        ctx.count(body + it["check"].encode(), kind=f"refresh-len{len(body)}" if len(body) in (16, 19, 20, 21, 22, 40) else "refresh",
+        ctx.count(body + it["check"].encode() + bytes(it.get("prev_body") or b""), kind="refresh-after-earlier-report" if it.get("prev_body") else f"refresh-len{len(body)}" if len(body) in (16, 19, 20, 21, 22, 40) else "refresh",
                   sample={"body": body, "check": it["check"]} if len(body) == 23 else None)
         one = {"items": [it]}
         if status == "raised":
